@@ -700,55 +700,66 @@ example : (permuteTypeStart (Arr.ofList [100, 101, 102, 103]) (Arr.ofList [3, 1,
 
 /-! ## (c) relocation -/
 
-/-- **relocate_roundtrip**: `locate_in ∘ locate_out = id` on every program whose `type_start` is NULL or does not
-    coincide with the program's own address (in a real program it points behind the header). -/
-theorem relocate_roundtrip (b : BitVec 64) (p : ProgPtrs) (h : p.typeStart = 0 ∨ p.typeStart ≠ b) :
-    locateIn b (locateOut b p) = p := by
+theorem bv_sub_ne_zero (x b : BitVec 64) (h : x ≠ b) : x - b ≠ 0 := by
+  intro hc
+  have := BitVec.sub_add_cancel x b
+  rw [hc] at this
+  exact h (by simpa using this.symm)
+
+/-- **relocate_roundtrip**: `locate_in ∘ locate_out = id` on every program whose guarded members (`inherit`,
+    `type_start`) are NULL or do not coincide with the program's own address (in a real program they point behind the
+    header). -/
+theorem relocate_roundtrip (b : BitVec 64) (p : ProgPtrs) (h : p.typeStart = 0 ∨ p.typeStart ≠ b)
+    (hi : p.inherit = 0 ∨ p.inherit ≠ b) : locateIn b (locateOut b p) = p := by
   cases p with
   | mk a1 a2 a3 a4 a5 a6 a7 a8 a9 a10 a11 at' ts =>
     simp only [locateIn, locateOut]
+    have e9 : (if (if a9 ≠ 0 then a9 - b else a9) ≠ 0 then (if a9 ≠ 0 then a9 - b else a9) + b
+               else (if a9 ≠ 0 then a9 - b else a9)) = a9 := by
+      by_cases hz : a9 = 0
+      · subst hz; simp
+      · have hne : a9 - b ≠ 0 := bv_sub_ne_zero a9 b (by rcases hi with h0 | h0; exact absurd h0 hz; exact h0)
+        simp only [ne_eq, if_pos hz, if_pos hne, BitVec.sub_add_cancel]
     by_cases hz : ts = 0
     · subst hz
+      simp only [e9]
       simp [BitVec.sub_add_cancel]
-    · have hne : ts - b ≠ 0 := by
-        intro hc
-        have : ts = b := by
-          have := BitVec.sub_add_cancel ts b
-          rw [hc] at this
-          simpa using this.symm
-        rcases h with h | h
-        · exact hz h
-        · exact h this
+    · have hne : ts - b ≠ 0 := bv_sub_ne_zero ts b (by rcases h with h0 | h0; exact absurd h0 hz; exact h0)
+      simp only [e9]
       simp only [ne_eq, if_pos hz, if_pos hne, BitVec.sub_add_cancel]
 
 /-- **relocate_offsets_preserved**: written at address `b1` and loaded at address `b2`, every relocated member keeps its
-    offset from the start of the program block (the 11 unconditional members; with a non-NULL `type_start` also the two
-    conditional ones). -/
+    offset from the start of the program block (the 10 unconditional members; with a non-NULL `inherit` / `type_start`
+    also the guarded ones), and a NULL `inherit` stays NULL (no wild pointer after a load). -/
 theorem relocate_offsets_preserved (b1 b2 : BitVec 64) (p : ProgPtrs) :
     let q := locateIn b2 (locateOut b1 p)
     q.program - b2 = p.program - b1 ∧ q.functionTable - b2 = p.functionTable - b1 ∧
     q.functionFlags - b2 = p.functionFlags - b1 ∧ q.functionOffsets - b2 = p.functionOffsets - b1 ∧
     q.functionCompressed - b2 = p.functionCompressed - b1 ∧ q.strings - b2 = p.strings - b1 ∧
     q.variableTable - b2 = p.variableTable - b1 ∧ q.variableTypes - b2 = p.variableTypes - b1 ∧
-    q.inherit - b2 = p.inherit - b1 ∧ q.classes - b2 = p.classes - b1 ∧ q.classMembers - b2 = p.classMembers - b1 ∧
+    q.classes - b2 = p.classes - b1 ∧ q.classMembers - b2 = p.classMembers - b1 ∧
+    (p.inherit = 0 → q.inherit = 0) ∧
+    (p.inherit ≠ 0 → p.inherit ≠ b1 → q.inherit - b2 = p.inherit - b1) ∧
     (p.typeStart ≠ 0 → p.typeStart ≠ b1 →
       q.argumentTypes - b2 = p.argumentTypes - b1 ∧ q.typeStart - b2 = p.typeStart - b1) := by
   simp only [locateIn, locateOut, BitVec.add_sub_cancel, true_and]
-  intro hz hb
-  have hne : p.typeStart - b1 ≠ 0 := by
-    intro hc
-    have := BitVec.sub_add_cancel p.typeStart b1
-    rw [hc] at this
-    exact hb (by simpa using this.symm)
-  simp only [ne_eq, if_pos hz, if_pos hne, BitVec.add_sub_cancel, and_self]
+  refine ⟨?_, ?_, ?_⟩
+  · intro h0
+    simp [h0]
+  · intro hz hb
+    have hne := bv_sub_ne_zero p.inherit b1 hb
+    simp only [ne_eq, if_pos hz, if_pos hne, BitVec.add_sub_cancel]
+  · intro hz hb
+    have hne := bv_sub_ne_zero p.typeStart b1 hb
+    simp only [ne_eq, if_pos hz, if_pos hne, BitVec.add_sub_cancel, and_self]
 
 example : locateIn 0x5000#64 (locateOut 0x1000#64
     ⟨0x10a8, 0x1100, 0x1200, 0x1300, 0x1400, 0x1500, 0x1600, 0x1700, 0, 0x1800, 0x1900, 0x1a00, 0x1b00⟩)
-    = ⟨0x50a8, 0x5100, 0x5200, 0x5300, 0x5400, 0x5500, 0x5600, 0x5700, 0x4000, 0x5800, 0x5900, 0x5a00, 0x5b00⟩ := by
+    = ⟨0x50a8, 0x5100, 0x5200, 0x5300, 0x5400, 0x5500, 0x5600, 0x5700, 0, 0x5800, 0x5900, 0x5a00, 0x5b00⟩ := by
   decide
 
 /-- **relocation_members_tied**: the members that `locate_out` and `locate_in` relocate in the source — read from both
-    functions on every run, with the ones under `if (prog->type_start)` marked — are exactly the members of the model's
+    functions on every run, each with the member that guards it (`if (prog->inherit)`, `if (prog->type_start)`) — are exactly the members of the model's
     `ProgPtrs`, in the same order and under the same guard, on both sides -/
 theorem relocation_members_tied :
     Gen.C17.locateOutMembers = relocatedMembers ∧ Gen.C17.locateInMembers = relocatedMembers ∧
